@@ -46,7 +46,7 @@ VCS_SUBCOMMANDS_BY_NAME = {
         'commit'        : "git commit --message '{message}'",
         'tag'           : "git tag --annotate {tag} --message '{message}'",
         'tag_light'     : "git tag {tag}",
-        'push_tag'      : "git push {remote} --follow-tags {tag} HEAD",
+        'push_tag'      : "git push {remote} --follow-tags refs/tags/{tag} HEAD",
         'push'          : "git push {remote} HEAD",
         'show_remotes'  : "git config --get remote.origin.url",
         'ls_branches'   : "git branch --no-column --format=%(HEAD)%(upstream:remotename)",
